@@ -35,6 +35,8 @@ int self();                                // logical thread id (0 = main), -1 o
 long long nowNs();                         // virtual clock
 const Stats& stats();
 bool active();
+bool blockOn(const void* key, long long timeoutNs);   // for interposed blocking I/O: false = timed out
+void wakeAll(const void* key);
 // observation hooks for harness invariants (called while holding the baton)
 long mutexOwnerDepth(const void* mutex, int* owner);
 
